@@ -31,6 +31,10 @@ pub struct ProcPlan {
     /// PopenConfig::setpgid (the child is a process-group leader)
     #[serde(default)]
     pub setpgid: bool,
+    /// the first n blocking waitpid() calls on the still-running child are
+    /// interrupted by a signal handler installed without SA_RESTART (-1/EINTR)
+    #[serde(default)]
+    pub eintr_waits: u8,
 }
 
 #[derive(Clone, Debug, PartialEq)]
@@ -74,6 +78,8 @@ pub struct SimProc {
     pub over_budget: bool,
     pub agg: Agg,
     pub op_log_start: usize,
+    pub eintr_left: u8,
+    pub eintr_hit: u32,
 }
 
 pub fn status_word_exit(code: u8) -> i32 {
@@ -90,7 +96,8 @@ impl SimProc {
             Some((s, core)) => status_word_signal(s, core),
             None => status_word_exit(plan.exit_code),
         };
-        SimProc {
+        let eintr = plan.eintr_waits;
+        let mut sp = SimProc {
             pid,
             now: t0,
             t0,
@@ -108,7 +115,11 @@ impl SimProc {
             over_budget: false,
             agg: Agg::default(),
             op_log_start: 0,
-        }
+            eintr_left: 0,
+            eintr_hit: 0,
+        };
+        sp.eintr_left = eintr;
+        sp
     }
     pub fn dead(&self) -> bool {
         matches!(self.exit_at, Some(t) if self.now >= t)
@@ -194,6 +205,14 @@ impl SimHooks for SimProc {
         if pid != self.pid || self.reaped {
             ip::set_errno(libc::ECHILD);
             self.log.push(Ev::Waitpid { pid, opts, ret: -1, status: 0, err: libc::ECHILD, t });
+            return -1;
+        }
+        if opts & libc::WNOHANG == 0 && !self.dead() && self.eintr_left > 0 {
+            // a signal handler ran while the call was blocked
+            self.eintr_left -= 1;
+            self.eintr_hit += 1;
+            ip::set_errno(libc::EINTR);
+            self.log.push(Ev::Waitpid { pid, opts, ret: -1, status: 0, err: libc::EINTR, t });
             return -1;
         }
         if opts & libc::WNOHANG == 0 && !self.dead() {
